@@ -51,3 +51,28 @@ Proof.
   - rewrite firstn_seq; [reflexivity|]. pose proof (Nat.div_le_upper_bound len 2 len). lia.
   - now rewrite skipn_seq.
 Qed.
+
+(* ------------------------------------------------------------------ _get_memoized (memoize=True)
+   The source-derived state-passing function (table = association list, key = n.tobytes() abstracted as the cell
+   values, rule = a threaded state machine) against get_memoized of Model/Memo1D.v; the model's call log is the
+   state of the LOGGED rule. *)
+From CPL Require Import Model.Rules GenProps.GenFunsMemo.
+
+Lemma lookup1_eq03 : forall k (d : list (list Z * Z)), src_dict_lookup k d = Memo1D.lookup k d.
+Proof. intros k d. induction d as [|[k' v] d IH]; [reflexivity|]. cbn. now rewrite IH. Qed.
+
+Theorem src_get_memoized_agrees : forall (St : Type) (rule : rule1 St) (s : St) (cache : list (list Z * Z))
+  (lg : list call1) (n : list Z) (c t : nat),
+  get_memoized rule (s, cache, lg) n c t =
+  (let '((sl, cache'), v) := src_get_memoized (fun n => n) (logged1 rule) (s, lg) n c t cache in
+   ((fst sl, cache', snd sl), v)).
+Proof.
+  intros St rule s cache lg n c t. cbv beta zeta delta [get_memoized src_get_memoized logged1].
+  autounfold with src_helpers. rewrite <- lookup1_eq03.
+  repeat match goal with
+         | |- context [match ?x with Some _ => _ | None => _ end] => destruct x eqn:?
+         | |- context [let '(_, _) := ?r in _] => destruct r eqn:?
+         | |- context [if ?c then _ else _] => destruct c eqn:?
+         end;
+  rewrite ?dict_set_absent by assumption; reflexivity.
+Qed.
